@@ -8,77 +8,6 @@ import PasfmtModel.Model.LayoutCheck
 
 namespace Pasfmt
 
-/-- two layouts of one token sequence as `TokenSpacing` can tell them apart; `po` = the token before the head is of
-    an "other" kind -/
-inductive GapEqW : Bool → FT → FT → Prop
-  | nil {po} : GapEqW po [] []
-  | cons {po t1 t2 r1 r2} : t1.tok.kind = t2.tok.kind → (po = true → gapEmpty t1 = gapEmpty t2) →
-      (t1.tok.kind = .tEof → min t1.fmt.sp 1 = min t2.fmt.sp 1) → GapEqW (isOtherKind t1.tok.kind) r1 r2 →
-      GapEqW po (t1 :: r1) (t2 :: r2)
-
-theorem spacingItemsGo_layoutW2 (po : Bool) (ft1 ft2 : FT) (h : GapEqW po ft1 ft2) :
-    LayoutEqW po (spacingItemsGo po ft1) (spacingItemsGo po ft2) := by
-  induction h with
-  | nil => exact LayoutEqW.nil
-  | @cons po t1 t2 r1 r2 hk hg' he hr ih =>
-    unfold spacingItemsGo
-    simp only
-    rw [← hk]
-    refine LayoutEqW.cons ?_ ih
-    intro hpo
-    by_cases hke : t1.tok.kind = .tEof
-    · have hke2 : t2.tok.kind = .tEof := hk ▸ hke
-      simp [hke, he hke]
-    · rcases hpo with hpo | hpo
-      · have hg := hg' hpo
-        subst hpo
-        have e1 : (t1.tok.kind == TokenType.tEof) = false := by simpa using hke
-        simp only [Bool.true_and, e1, Bool.not_false, Bool.and_true]
-        unfold gapEmpty at hg
-        by_cases h1 : t1.fmt.nl > 0 <;> by_cases h2 : t2.fmt.nl > 0
-        · simp only [h1, h2, decide_true, if_true]; omega
-        · have h2' : t2.fmt.nl = 0 := by omega
-          have h1' : (t1.fmt.nl == 0) = false := by simp; omega
-          simp [h2', h1'] at hg
-          simp only [h1, h2, decide_true, decide_false, if_true]
-          simp; omega
-        · have h1' : t1.fmt.nl = 0 := by omega
-          have h2' : (t2.fmt.nl == 0) = false := by simp; omega
-          simp [h1', h2'] at hg
-          simp only [h1, h2, decide_true, decide_false, if_true]
-          simp; omega
-        · have h1' : t1.fmt.nl = 0 := by omega
-          have h2' : t2.fmt.nl = 0 := by omega
-          simp [h1', h2'] at hg
-          simp only [h1, h2, decide_false]
-          simp
-          by_cases z1 : t1.fmt.sp = 0 <;> by_cases z2 : t2.fmt.sp = 0 <;> simp_all <;> omega
-      · exact absurd hpo hke
-
-
-theorem spacingResult_gapEqW (ft1 ft2 : FT) (h : GapEqW false ft1 ft2)
-    (hni : noInlineLine (spacingItems ft1)) :
-    spacingResult (spacingItems ft1) = spacingResult (spacingItems ft2) :=
-  spacingResult_layoutW _ _ (spacingItemsGo_layoutW2 false ft1 ft2 h) hni
-
-theorem gapEqWB_sound : ∀ (po : Bool) (ft1 ft2 : FT), gapEqWB po ft1 ft2 = true → GapEqW po ft1 ft2
-  | _, [], [], _ => GapEqW.nil
-  | _, [], _ :: _, h => by simp [gapEqWB] at h
-  | _, _ :: _, [], h => by simp [gapEqWB] at h
-  | po, t1 :: r1, t2 :: r2, h => by
-    unfold gapEqWB at h
-    simp only [Bool.and_eq_true, Bool.or_eq_true, Bool.not_eq_true', beq_iff_eq] at h
-    obtain ⟨⟨⟨hk, hg⟩, he⟩, hr⟩ := h
-    refine GapEqW.cons hk ?_ ?_ (gapEqWB_sound _ r1 r2 hr)
-    · intro hpo
-      rcases hg with hg | hg
-      · rw [hpo] at hg; cases hg
-      · exact hg
-    · intro hke
-      rcases he with he | he
-      · rw [hke] at he; simp at he
-      · exact he
-
 /-! ### sharper still: a gap behind a literal matters only if the next token can keep it
 
 The rule of most kinds overwrites the token's own `spaces_before` (`;`, `)`, `,`, binary operators, keywords, comments,
@@ -231,5 +160,80 @@ theorem spacingResult_layoutW2 (l1 l2 : List (Kind × Nat)) (h : LayoutEqW2 fals
     simp only [List.tail_cons] at e2
     simp only [List.cons.injEq] at key
     simp [key.2, e2]
+
+/-- two layouts of one token sequence as `TokenSpacing` can tell them apart; `po` = the token before the head is of
+    an "other" kind -/
+inductive GapEqW : Bool → FT → FT → Prop
+  | nil {po} : GapEqW po [] []
+  | cons {po t1 t2 r1 r2} : t1.tok.kind = t2.tok.kind →
+      ((po = true ∧ keepsCur t1.tok.kind = true) → gapEmpty t1 = gapEmpty t2) →
+      (t1.tok.kind = .tEof → min t1.fmt.sp 1 = min t2.fmt.sp 1) → GapEqW (isOtherKind t1.tok.kind) r1 r2 →
+      GapEqW po (t1 :: r1) (t2 :: r2)
+
+theorem spacingItemsGo_layoutW2 (po : Bool) (ft1 ft2 : FT) (h : GapEqW po ft1 ft2) :
+    LayoutEqW2 po (spacingItemsGo po ft1) (spacingItemsGo po ft2) := by
+  induction h with
+  | nil => exact LayoutEqW2.nil
+  | @cons po t1 t2 r1 r2 hk hg' he hr ih =>
+    unfold spacingItemsGo
+    simp only
+    rw [← hk]
+    refine LayoutEqW2.cons ?_ ih
+    intro hpo
+    by_cases hke : t1.tok.kind = .tEof
+    · have hke2 : t2.tok.kind = .tEof := hk ▸ hke
+      simp [hke, he hke]
+    · rcases hpo with hpo | hpo
+      · have hg := hg' hpo
+        obtain ⟨hpo, _⟩ := hpo
+        subst hpo
+        have e1 : (t1.tok.kind == TokenType.tEof) = false := by simpa using hke
+        simp only [Bool.true_and, e1, Bool.not_false, Bool.and_true]
+        unfold gapEmpty at hg
+        by_cases h1 : t1.fmt.nl > 0 <;> by_cases h2 : t2.fmt.nl > 0
+        · simp only [h1, h2, decide_true, if_true]; omega
+        · have h2' : t2.fmt.nl = 0 := by omega
+          have h1' : (t1.fmt.nl == 0) = false := by simp; omega
+          simp [h2', h1'] at hg
+          simp only [h1, h2, decide_true, decide_false, if_true]
+          simp; omega
+        · have h1' : t1.fmt.nl = 0 := by omega
+          have h2' : (t2.fmt.nl == 0) = false := by simp; omega
+          simp [h1', h2'] at hg
+          simp only [h1, h2, decide_true, decide_false, if_true]
+          simp; omega
+        · have h1' : t1.fmt.nl = 0 := by omega
+          have h2' : t2.fmt.nl = 0 := by omega
+          simp [h1', h2'] at hg
+          simp only [h1, h2, decide_false]
+          simp
+          by_cases z1 : t1.fmt.sp = 0 <;> by_cases z2 : t2.fmt.sp = 0 <;> simp_all <;> omega
+      · exact absurd hpo hke
+
+
+theorem spacingResult_gapEqW (ft1 ft2 : FT) (h : GapEqW false ft1 ft2)
+    (hni : noInlineLine (spacingItems ft1)) :
+    spacingResult (spacingItems ft1) = spacingResult (spacingItems ft2) :=
+  spacingResult_layoutW2 _ _ (spacingItemsGo_layoutW2 false ft1 ft2 h) hni
+
+theorem gapEqWB_sound : ∀ (po : Bool) (ft1 ft2 : FT), gapEqWB po ft1 ft2 = true → GapEqW po ft1 ft2
+  | _, [], [], _ => GapEqW.nil
+  | _, [], _ :: _, h => by simp [gapEqWB] at h
+  | _, _ :: _, [], h => by simp [gapEqWB] at h
+  | po, t1 :: r1, t2 :: r2, h => by
+    unfold gapEqWB at h
+    simp only [Bool.and_eq_true, Bool.or_eq_true, Bool.not_eq_true', beq_iff_eq] at h
+    obtain ⟨⟨⟨hk, hg⟩, he⟩, hr⟩ := h
+    refine GapEqW.cons hk ?_ ?_ (gapEqWB_sound _ r1 r2 hr)
+    · intro hpo
+      rcases hg with hg | hg
+      · rcases hg with hg | hg
+        · rw [hpo.1] at hg; cases hg
+        · rw [hpo.2] at hg; cases hg
+      · exact hg
+    · intro hke
+      rcases he with he | he
+      · rw [hke] at he; simp at he
+      · exact he
 
 end Pasfmt
